@@ -39,6 +39,12 @@ func (a Bool) M__index__() (Int, error) {
 	return Int(0), nil
 }
 
+// bool is an int: round(True) == 1
+func (a Bool) M__round__(digits Object) (Object, error) {
+	i, _ := a.M__index__()
+	return i.M__round__(digits)
+}
+
 func (a Bool) M__str__() (Object, error) {
 	return a.M__repr__()
 }
